@@ -72,6 +72,7 @@ def cases(tier, seed):
     out.append({"id": "rigidcluster", "kind": "rigid", "tier": tier})
     out.append({"id": "composite:nested", "kind": "nested", "tier": tier})
     out.append({"id": "points:single-point-forms", "kind": "single"})
+    out.append({"id": "points:numeric-types-and-mixes", "kind": "numtypes"})
     out.append({"id": "angles:array-valued-degrees", "kind": "arrangles"})
     out.append({"id": "composite:csg", "kind": "csg", "tier": tier})
     out.append({"id": "points:mixed-magnitudes", "kind": "mixedmag",
@@ -647,6 +648,82 @@ def _run_single(case, ck):
     return digest(*acc)
 
 
+def _run_numtypes(case, ck):
+    """(a) coordinates stored as narrow / unsigned integers (pixel indices):
+    the result is that of the same numbers as floats; (b) every mix of
+    scalars and arrays among the three coordinates converts like the fully
+    expanded arrays; (c) angles held as small integers"""
+    from holopy.core.math import (find_transformation_function as ftf,
+                                  rotation_matrix)
+    names = ("cartesian", "spherical", "cylindrical")
+    acc = []
+    # (a)
+    base = np.array([[200, 3, 120, 0, 250], [150, 4, 0, 7, 250],
+                     [100, 0, 90, 24, 250]])
+    for dt in ("int16", "uint8", "uint16", "int32", "uint64", "float32"):
+        for b in ("spherical", "cylindrical"):
+            ref = np.asarray(ftf("cartesian", b)(base.astype(float)), float)
+            try:
+                got = np.asarray(ftf("cartesian", b)(base.astype(dt)), float)
+                ck.trans += 1
+            except Exception as e:
+                ck.true("integer-coordinates", False, "cartesian -> %s of "
+                        "%s coordinates raised %s: %s" %
+                        (b, dt, type(e).__name__, e))
+                continue
+            e = float(np.abs(got - ref).max())
+            ck.true("integer-coordinates", got.shape == ref.shape and
+                    e <= 1e-9, "cartesian -> %s of coordinates stored as %s "
+                    "differs from the same numbers as float64 by %.3g (e.g. "
+                    "%r instead of %r)" %
+                    (b, dt, e, got[:, 0].tolist(), ref[:, 0].tolist()))
+    # (b)
+    full = {"cartesian": np.array([[1.0, -2.0, 0.5, 3.0]] * 3) *
+            np.array([[1.0], [0.5], [2.0]])}
+    full["spherical"] = np.asarray(ftf("cartesian", "spherical")(
+        full["cartesian"]), float)
+    full["cylindrical"] = np.asarray(ftf("cartesian", "cylindrical")(
+        full["cartesian"]), float)
+    for a in names:
+        for b in names:
+            for mask in itertools.product((0, 1), repeat=3):
+                if sum(mask) in (0, 3):
+                    continue
+                # slots with mask 1 hold one number, the others arrays
+                src = [full[a][i] if not mask[i] else float(full[a][i][0])
+                       for i in range(3)]
+                exp_src = np.array([full[a][i] if not mask[i] else
+                                    np.full(4, full[a][i][0])
+                                    for i in range(3)])
+                ref = np.asarray(ftf(a, b)(exp_src), float)
+                try:
+                    got = np.asarray(ftf(a, b)(src), float)
+                    ck.trans += 1
+                except Exception as e:
+                    ck.true("scalar-array-mix", False, "%s -> %s with "
+                            "scalars in slots %r raised %s: %s" %
+                            (a, b, mask, type(e).__name__, str(e)[:60]))
+                    continue
+                ok = got.shape == ref.shape and \
+                    float(np.abs(got - ref).max()) <= 1e-13
+                ck.true("scalar-array-mix", ok, "%s -> %s with scalars in "
+                        "slots %r: shape %r, expected the result of the "
+                        "expanded arrays (shape %r)" %
+                        (a, b, mask, got.shape, ref.shape))
+        acc.append(np.round(full[a], 9))
+    # (c)
+    for dt in ("int8", "uint8", "int16", "int64", "bool"):
+        ang = [np.array(v).astype(dt) for v in (1, 2, 1)]
+        ref = euler_zyz(*[float(v) for v in ang])
+        R = np.asarray(rotation_matrix(*ang))
+        ck.trans += 1
+        e = float(np.abs(R - ref).max())
+        ck.true("rot-zyz", R.dtype == np.float64 and e <= 1e-13,
+                "rotation_matrix with %s angles %r: dtype %s, differs from "
+                "Rz Ry Rz by %.2e" % (dt, [int(v) for v in ang], R.dtype, e))
+    return digest(*acc)
+
+
 def _run_arrangles(case, ck):
     """angles held in arrays (0-d, or elements of the caller's array): the
     call neither changes them nor depends on having been made before"""
@@ -730,6 +807,7 @@ def _run_csg(case, ck):
 def run_case(case):
     ck = Checker()
     fp = {"single": _run_single, "arrangles": _run_arrangles,
+          "numtypes": _run_numtypes,
           "csg": _run_csg,
           "points": _run_points, "angles": _run_angles,
           "composite": _run_composite, "rigid": _run_rigid,
